@@ -364,7 +364,9 @@ func CrashSite(logPath string) (msg, frame string, inRepo bool) {
 		}
 		if m := frameRe.FindStringSubmatch(l); m != nil {
 			p := m[1]
-			if strings.Contains(p, "/src/runtime/") || strings.Contains(p, "/src/sync/") || strings.Contains(p, "/src/internal/") {
+			// skip the Go runtime and standard library: the innermost frame of our own
+			// code (repository or harness) is what matters
+			if !strings.HasPrefix(p, "/repo/") && !strings.HasPrefix(p, VerifDir+"/") {
 				continue
 			}
 			frame = p + ":" + m[2]
